@@ -481,3 +481,47 @@ M['C15'] = [
     dict(id='c15-benign-tree-clear-unconditional-reset', kind='benign', edits=[
         ('src/bintree.c', '        bt->root  = NULL;\n        bt->size = 0;\n    }\n}', '    }\n    bt->root = NULL;\n    bt->size = 0;\n}')]),
 ]
+
+# ------------------------------------------------------------------------------------------- C01
+M['C01'] = [
+    dict(id='c01-second-recursion-ignores-stop', kind='fault', rule='W1', edits=[
+        ('src/bintree.c', '    if (res == 0 && rn != NULL) {\n        /* visit the subtree rooted at the right child */', '    if (rn != NULL) {\n        /* visit the subtree rooted at the right child */')]),
+    dict(id='c01-pre-and-mid-swapped', kind='fault', rule='W1', edits=[
+        ('src/bintree.c', '        res = visit(bn, CSTL_BINTREE_VISIT_ORDER_PRE, priv);', '        res = visit(bn, CSTL_BINTREE_VISIT_ORDER_MID, priv);'),
+        ('src/bintree.c', '            res = visit(bn, CSTL_BINTREE_VISIT_ORDER_MID, priv);', '            res = visit(bn, CSTL_BINTREE_VISIT_ORDER_PRE, priv);')]),
+    dict(id='c01-leaf-reported-as-mid', kind='fault', rule='W1', edits=[
+        ('src/bintree.c', '            res = visit(bn, CSTL_BINTREE_VISIT_ORDER_LEAF, priv);', '            res = visit(bn, CSTL_BINTREE_VISIT_ORDER_MID, priv);')]),
+    dict(id='c01-stop-value-lost', kind='fault', rule='W1', edits=[
+        ('src/bintree.c', '        res = visit(bn, CSTL_BINTREE_VISIT_ORDER_POST, priv);\n    }\n\n    return res;', '        res = visit(bn, CSTL_BINTREE_VISIT_ORDER_POST, priv);\n    }\n\n    return res != 0;')]),
+    dict(id='c01-recursion-swaps-selectors', kind='fault', rule='W1', edits=[
+        ('src/bintree.c', '        res = __cstl_bintree_foreach(rn, visit, priv, l, r);', '        res = __cstl_bintree_foreach(rn, visit, priv, r, l);')]),
+    dict(id='c01-rev-walks-forward', kind='fault', rule='W2', edits=[
+        ('src/bintree.c', '            res = __cstl_bintree_foreach(\n                      bt->root, cstl_bintree_foreach_visit, &bfp,\n                      __cstl_bintree_right, __cstl_bintree_left);', '            res = __cstl_bintree_foreach(\n                      bt->root, cstl_bintree_foreach_visit, &bfp,\n                      __cstl_bintree_left, __cstl_bintree_right);')]),
+    dict(id='c01-foreach-drops-result', kind='fault', rule='W2', edits=[
+        ('src/bintree.c', '            break;\n        }\n    }\n\n    return res;\n}\n\nvoid cstl_bintree_swap', '            break;\n        }\n        res = 0;\n    }\n\n    return res;\n}\n\nvoid cstl_bintree_swap')]),
+    dict(id='c01-adapter-normalises-result', kind='fault', rule='W2', edits=[
+        ('src/bintree.c', '    return bfp->visit(cstl_bintree_element(bfp->bt, bn), order, bfp->priv);', '    return bfp->visit(cstl_bintree_element(bfp->bt, bn), order, bfp->priv) > 0;')]),
+    dict(id='c01-erase-without-size', kind='fault', rule='W3', edits=[
+        ('src/bintree.c', '    bt->size--;\n\n    return y;', '    return y;')]),
+    dict(id='c01-insert-size-only-when-nonempty', kind='fault', rule='W3', edits=[
+        ('src/bintree.c', '    *bc = bn;\n\n    bt->size++;', '    *bc = bn;\n\n    if (bp != NULL) {\n        bt->size++;\n    }')]),
+    dict(id='c01-find-descends-right-on-less', kind='fault', rule='W4', edits=[
+        ('src/bintree.c', '        if (eq < 0) {\n            bn = bn->l;\n        } else {\n            bn = bn->r;\n        }', '        if (eq < 0) {\n            bn = bn->r;\n        } else {\n            bn = bn->l;\n        }')]),
+    dict(id='c01-insert-compares-reversed', kind='fault', rule='W4', edits=[
+        ('src/bintree.c', '        if (__cstl_bintree_cmp(bt, bn, bp) < 0) {\n            bc = &bp->l;', '        if (__cstl_bintree_cmp(bt, bp, bn) < 0) {\n            bc = &bp->l;')]),
+    dict(id='c01-insert-equal-goes-left-find-right', kind='benign', edits=[
+        ('src/bintree.c', '        if (__cstl_bintree_cmp(bt, bn, bp) < 0) {\n            bc = &bp->l;\n        } else {\n            bc = &bp->r;\n        }', '        if (__cstl_bintree_cmp(bt, bn, bp) >= 0) {\n            bc = &bp->r;\n        } else {\n            bc = &bp->l;\n        }')]),
+    dict(id='c01-erase-unlinks-without-null-check', kind='fault', rule='W5', edits=[
+        ('src/bintree.c', '    if (p != NULL) {\n        (void)__cstl_bintree_erase(bt, __cstl_bintree_node(bt, p));\n    }\n\n    return p;', '    (void)__cstl_bintree_erase(bt, __cstl_bintree_node(bt, p));\n\n    return p;')]),
+    dict(id='c01-erase-returns-probe', kind='fault', rule='W5', edits=[
+        ('src/bintree.c', '        (void)__cstl_bintree_erase(bt, __cstl_bintree_node(bt, p));\n    }\n\n    return p;', '        (void)__cstl_bintree_erase(bt, __cstl_bintree_node(bt, p));\n        p = (void *)_p;\n    }\n\n    return p;')]),
+    dict(id='c01-rbtree-erase-returns-probe', kind='fault', rule='W5', edits=[
+        ('src/rbtree.c', '        __cstl_rbtree_erase(t, __cstl_rbtree_node(t, p));\n    }\n    return p;', '        __cstl_rbtree_erase(t, __cstl_rbtree_node(t, p));\n        return (void *)_p;\n    }\n    return p;')]),
+    dict(id='c01-find-returns-last-node-when-absent', kind='fault', rule='W6', edits=[
+        ('src/bintree.c', '    if (bn != NULL) {\n        return cstl_bintree_element(bt, bn);\n    }\n    return NULL;', '    if (bn != NULL) {\n        return cstl_bintree_element(bt, bn);\n    }\n    return (p != NULL && par == NULL) ? cstl_bintree_element(bt, p) : NULL;')]),
+    dict(id='c01-benign-walker-early-returns', kind='benign', edits=[
+        ('src/bintree.c', '    if (res == 0 && leaf == 0) {\n        /* first visit to the current node (if it\'s a non-leaf) */\n        res = visit(bn, CSTL_BINTREE_VISIT_ORDER_PRE, priv);\n    }',
+         '    if (leaf == 0) {\n        /* first visit to the current node (if it\'s a non-leaf) */\n        res = visit(bn, CSTL_BINTREE_VISIT_ORDER_PRE, priv);\n        if (res != 0) {\n            return res;\n        }\n    }')]),
+    dict(id='c01-benign-find-for-loop', kind='benign', edits=[
+        ('src/bintree.c', '        p = bn;\n        if (eq < 0) {\n            bn = bn->l;\n        } else {\n            bn = bn->r;\n        }', '        p = bn;\n        bn = (eq < 0) ? bn->l : bn->r;')]),
+]
